@@ -19,13 +19,14 @@ def one(seed):
     try:
         tree = os.path.join(root, "tree")
         os.makedirs(tree)
-        for name in ("src", "slotted-egraphs-derive", "tests", "Cargo.toml", "Cargo.lock"):
+        for name in ("src", "slotted-egraphs-derive", "tests", "benches", "Cargo.toml", "Cargo.lock", "README.md"):
             q = os.path.join(REPO, name)
             if os.path.isdir(q):
                 shutil.copytree(q, os.path.join(tree, name))
             elif os.path.exists(q):
                 shutil.copy(q, os.path.join(tree, name))
-        p = subprocess.run(["patch", "-p1", "--no-backup-if-mismatch", "-i", os.path.join(d, "patch.diff")], cwd=tree, stdout=subprocess.PIPE, stderr=subprocess.STDOUT, text=True)
+        # strict application (no fuzz): a patch whose context was rewritten by a later fix is reported as superseded, not applied approximately
+        p = subprocess.run(["git", "apply", os.path.join(d, "patch.diff")], cwd=tree, stdout=subprocess.PIPE, stderr=subprocess.STDOUT, text=True)
         if p.returncode != 0:
             return seed, prop, "n/a", "patch no longer applies to the current tree (superseded by a later fix?)"
         # every run gets its own copy of the checker so that parallel runs of one property do not share an evidence file
